@@ -138,12 +138,13 @@ def run_for_property(prop: str, repo_root: str) -> Tuple[Dict[str, Any], List[st
             )
     fire = sum(1 for v in variants if v["expect"] == "fire")
     cross = sum(1 for v in variants if v["expect"] in ("no-violation", "any"))
+    refac = sum(1 for v in variants if v["id"].startswith("refac-"))
     extra = {
         "selftest": [
             {k: r.get(k) for k in ("id", "outcome", "status", "fired_rules", "first")} | {"expect": by[r["id"]]["expect"], "what": by[r["id"]].get("what", "")}
             for r in results
         ],
-        "selftest_summary": "%d/%d as expected (%d must-fire, %d must-stay-silent, %d seeded changes to other properties that must not raise a violation here, %d skipped)" % (n_ok, len(variants), fire, len(variants) - fire - cross, cross, n_skip),
+        "selftest_summary": "%d/%d as expected (%d must-fire, %d must-stay-silent of which %d independent behaviour-preserving refactorings, %d seeded changes to other properties that must not raise a violation here, %d skipped)" % (n_ok, len(variants), fire, len(variants) - fire - cross, refac, cross, n_skip),
         "selftest_wall_s": round(time.time() - t0, 2),
     }
     return extra, errors
